@@ -253,11 +253,49 @@ impl Property for C09 {
     }
 }
 
+const C12_RULE: &str = "proptest histories (operations in every state: unpolled, blocked on a full queue, queued, running, abandoned, finished; optionally a ReadBufPool with live ReadBufs and extra SubmissionQueue clones) that end in Teardown(pi): a generated permutation of dropping {Ring, each queue handle, the AsyncFd, each future, the pool, each ReadBuf}, some drops on a helper thread, then wake() on a surviving handle. Oracle: no panic; each region mapped on the ring descriptor is unmapped exactly once with the same (addr,len) and nothing else; the ring descriptor is closed exactly once, after the last unmap; the Ring's drop submits what is queued, issues SYNC_CANCEL, leaves nothing in flight and reclaims every abandoned operation's state; a buffer ring is never freed while registered; after all handles are gone no simulator-issued descriptor is open, nothing is registered, no heap block or waker clone is left. Non-trivial = the Ring was not the last object dropped and something was queued or in flight. Distinct = distinct (ring class, feature set) fingerprints. One case in eight runs the multi-completion driver (props/multi.rs: multishot accept, Ring::pollable, the signal iterator, zero-copy sends, writes) with the Ring dropped somewhere in the history, also between the two completions of a zero-copy send; afterwards futures are polled and dropped and the kernel posts what it still owes. There the oracle is C06's (state and resources of an abandoned operation live until, and dead after, the consumption of its final completion, never freed twice, nothing published after the Ring's drop) and C01's (nothing the kernel still holds is freed or moved).";
+
 pub struct C12;
 impl Property for C12 {
     const ID: &'static str = "C12";
-    type Case = History;
-    fn strategy(_tier: Tier) -> BoxedStrategy<History> {
+    type Case = HCase;
+    fn strategy(_tier: Tier) -> BoxedStrategy<HCase> {
+        // One case in eight: the multi-completion driver with the Ring
+        // dropped somewhere in the history (multishot and zero-copy
+        // operations abandoned or in flight at that moment).
+        let multi = multi::strategy().prop_map(|mut c| {
+            if !c.multi_steps.iter().any(|s| matches!(s, multi::MStep::DropRing)) {
+                let at = c.multi_steps.len() - c.multi_steps.len() / 4;
+                c.multi_steps.insert(at, multi::MStep::DropRing);
+            }
+            HCase::Multi(c)
+        });
+        prop_oneof![7 => Self::histories().prop_map(HCase::Seq), 1 => multi].boxed()
+    }
+    fn cases(tier: Tier) -> u32 {
+        tier.pick(20_000, 2_000_000)
+    }
+    fn run(case: &HCase, ctx: &mut Ctx) {
+        let case = match case {
+            HCase::Seq(h) => h,
+            HCase::Multi(m) => return run_multi(m, ctx, "C12", &["running-after-ring-drop", "dropped-after-ring-while-kernel-holds", "polled-after-ring-drop-while-kernel-holds"]),
+            HCase::Drop(_) | HCase::Composite(_) => return,
+        };
+        let feats = interp::execute(case, Oracles { c12: true, ..Oracles::default() }, ctx);
+        ctx.nontrivial = feats.contains("ring-not-last") && feats.contains("ring-dropped-with-work");
+        classes(ctx, &feats);
+        ctx.fingerprint = super::fingerprint(case, &feats);
+    }
+    fn rule() -> &'static str {
+        C12_RULE
+    }
+    fn assumptions() -> Vec<&'static str> {
+        vec![SIM_ASSUMPTION, "six cases in seven: at most ~48 operations in flight when the Ring is dropped, with a completion queue of >= 16 entries; one in seven: 3..14 running operations and a completion queue of 1..4 entries (overflow at Ring drop, also by more than the queue size)"]
+    }
+}
+
+impl C12 {
+    fn histories() -> BoxedStrategy<History> {
         let general = (strat::ring_cfg_wide(), proptest::collection::vec(strat::step(strat::kind_basic().boxed(), 1, 3), 0..40), strat::teardown()).prop_map(|(mut cfg, steps, teardown)| {
             // In-flight operations at Ring drop fit the completion queue in
             // this class: at least 16 CQ entries.
@@ -284,20 +322,5 @@ impl Property for C12 {
             History { cfg, steps, teardown: Some(teardown) }
         });
         prop_oneof![6 => general, 1 => overflow].boxed()
-    }
-    fn cases(tier: Tier) -> u32 {
-        tier.pick(20_000, 2_000_000)
-    }
-    fn run(case: &History, ctx: &mut Ctx) {
-        let feats = interp::execute(case, Oracles { c12: true, ..Oracles::default() }, ctx);
-        ctx.nontrivial = feats.contains("ring-not-last") && feats.contains("ring-dropped-with-work");
-        classes(ctx, &feats);
-        ctx.fingerprint = super::fingerprint(case, &feats);
-    }
-    fn rule() -> &'static str {
-        "proptest histories (operations in every state: unpolled, blocked on a full queue, queued, running, abandoned, finished; optionally a ReadBufPool with live ReadBufs and extra SubmissionQueue clones) that end in Teardown(pi): a generated permutation of dropping {Ring, each queue handle, the AsyncFd, each future, the pool, each ReadBuf}, some drops on a helper thread, then wake() on a surviving handle. Oracle: no panic; each region mapped on the ring descriptor is unmapped exactly once with the same (addr,len) and nothing else; the ring descriptor is closed exactly once, after the last unmap; the Ring's drop submits what is queued, issues SYNC_CANCEL, leaves nothing in flight and reclaims every abandoned operation's state; a buffer ring is never freed while registered; after all handles are gone no simulator-issued descriptor is open, nothing is registered, no heap block or waker clone is left. Non-trivial = the Ring was not the last object dropped and something was queued or in flight. Distinct = distinct (ring class, feature set) fingerprints."
-    }
-    fn assumptions() -> Vec<&'static str> {
-        vec![SIM_ASSUMPTION, "six cases in seven: at most ~48 operations in flight when the Ring is dropped, with a completion queue of >= 16 entries; one in seven: 3..14 running operations and a completion queue of 1..4 entries (overflow at Ring drop, also by more than the queue size)"]
     }
 }
